@@ -11,7 +11,9 @@ COMMON_NOTE = ("Trusts rustc's MIR construction (nightly 1.97, mir-opt-level=0) 
                "behaviour; decides the structural clause named above for all inputs/histories, not the run-time "
                "behaviour of the primitives. Every rule is evaluated on the all-features MIR of the dev profile and of a "
                "build without cfg(debug_assertions) (what --release compiles); thorough repeats it on all 63 other "
-               "feature subsets.")
+               "feature subsets. Before any rule runs the fact document is normalised by MIR-to-MIR equivalences (canonical generic/"
+               "lifetime/private-field names, new private helpers renamed back or inlined, `?`/map/map_err/ok_or/for_each expanded "
+               "to explicit branches, one spelling per library operation), so verdicts do not depend on spelling; see DESIGN.md 10.8.")
 
 CHECKS = {
     'C01': dict(
